@@ -8,10 +8,11 @@ package composite
 
 //@ ghost field (*HierarchicalIterator) src int
 //@ predicate SrcOK(h *HierarchicalIterator) = (forall s int :: 0 <= s && s < len(h.iterators) ==> h.iterators[s] != nil && iterator.IterSorted(h.iterators[s])) && (forall s int, t int :: 0 <= s && s < t && t < len(h.iterators) ==> dyn(h.iterators[s]) != dyn(h.iterators[t]))
+//@ predicate SrcDistinct(h *HierarchicalIterator) = (forall s int :: 0 <= s && s < len(h.iterators) ==> h.iterators[s] != nil) && (forall s int, t int :: 0 <= s && s < t && t < len(h.iterators) ==> dyn(h.iterators[s]) != dyn(h.iterators[t]))
 //@ predicate AtLowerBound(it iterator.Iterator, t bstr) = 0 <= it.pos && it.pos <= it.n && (forall i int :: 0 <= i && i < it.pos ==> blt(it.keys[i], t)) && (it.pos < it.n ==> !blt(it.keys[it.pos], t))
 //@ predicate CurKey(it iterator.Iterator) = it.keys[it.pos]
 // the merge's current entry is the minimum over the valid sources, taken from the newest source holding it
-//@ predicate MergedAt(h *HierarchicalIterator) = 0 <= h.src && h.src < len(h.iterators) && iterator.IterValid(h.iterators[h.src]) && bstr(h.key) == h.iterators[h.src].keys[h.iterators[h.src].pos] && bstr(h.value) == h.iterators[h.src].vals[h.iterators[h.src].pos] && (h.value == nil) == h.iterators[h.src].valnil[h.iterators[h.src].pos] && (forall s int :: 0 <= s && s < len(h.iterators) && iterator.IterValid(h.iterators[s]) ==> (s < h.src ==> blt(bstr(h.key), h.iterators[s].keys[h.iterators[s].pos])) && (s >= h.src ==> !blt(h.iterators[s].keys[h.iterators[s].pos], bstr(h.key))))
+//@ predicate MergedAt(h *HierarchicalIterator) = h.key != nil && 0 <= h.src && h.src < len(h.iterators) && iterator.IterValid(h.iterators[h.src]) && bstr(h.key) == h.iterators[h.src].keys[h.iterators[h.src].pos] && bstr(h.value) == h.iterators[h.src].vals[h.iterators[h.src].pos] && (h.value == nil) == h.iterators[h.src].valnil[h.iterators[h.src].pos] && (forall s int :: 0 <= s && s < len(h.iterators) && iterator.IterValid(h.iterators[s]) ==> (s < h.src ==> blt(bstr(h.key), h.iterators[s].keys[h.iterators[s].pos])) && (s >= h.src ==> !blt(h.iterators[s].keys[h.iterators[s].pos], bstr(h.key))))
 
 // Seek(t): EVERY source is positioned on its first key >= t (so that continued iteration sees all of them);
 // the merge is on the smallest such key, newest source first; invalid iff no source has a key >= t.
@@ -19,7 +20,7 @@ package composite
 //@   requires SrcOK(h) && lockstate(h.mu) == 0
 //@   ensures[C05] forall s int :: 0 <= s && s < len(h.iterators) ==> AtLowerBound(h.iterators[s], bstr(target))
 //@   ensures[C05] result == h.valid
-//@   ensures[C05] h.valid ==> MergedAt(h)
+//@   ensures[C05,T] h.valid ==> MergedAt(h)
 //@   ensures[C05] !h.valid ==> (forall s int :: 0 <= s && s < len(h.iterators) ==> !iterator.IterValid(h.iterators[s]))
 //@   ghost exit: h.src = bestIterIdx
 //@ loop (*HierarchicalIterator).Seek#1
@@ -28,10 +29,90 @@ package composite
 //@   invariant[C05] SrcOK(h) && !h.valid && 0 - 1 <= bestIterIdx && bestIterIdx < idx
 //@   invariant[C05] forall s int :: 0 <= s && s < len(h.iterators) && iterator.IterValid(h.iterators[s]) ==> !blt(h.iterators[s].keys[h.iterators[s].pos], bstr(target))
 //@   invariant[C05] bestIterIdx == 0 - 1 ==> (forall s int :: 0 <= s && s < idx ==> !iterator.IterValid(h.iterators[s]))
-//@   invariant[C05] bestIterIdx >= 0 ==> iterator.IterValid(h.iterators[bestIterIdx]) && bstr(bestKey) == h.iterators[bestIterIdx].keys[h.iterators[bestIterIdx].pos] && bstr(bestValue) == h.iterators[bestIterIdx].vals[h.iterators[bestIterIdx].pos] && (bestValue == nil) == h.iterators[bestIterIdx].valnil[h.iterators[bestIterIdx].pos]
-//@   invariant[C05] bestIterIdx >= 0 ==> (forall s int :: 0 <= s && s < idx && iterator.IterValid(h.iterators[s]) ==> (s < bestIterIdx ==> blt(bstr(bestKey), h.iterators[s].keys[h.iterators[s].pos])) && (s >= bestIterIdx ==> !blt(h.iterators[s].keys[h.iterators[s].pos], bstr(bestKey))))
+//@   invariant[C05,T] bestIterIdx >= 0 ==> iterator.IterValid(h.iterators[bestIterIdx]) && bestKey != nil && bstr(bestKey) == h.iterators[bestIterIdx].keys[h.iterators[bestIterIdx].pos] && bstr(bestValue) == h.iterators[bestIterIdx].vals[h.iterators[bestIterIdx].pos] && (bestValue == nil) == h.iterators[bestIterIdx].valnil[h.iterators[bestIterIdx].pos]
+//@   invariant[C05,T] bestIterIdx >= 0 ==> (forall s int :: 0 <= s && s < idx && iterator.IterValid(h.iterators[s]) && s < bestIterIdx ==> blt(bstr(bestKey), h.iterators[s].keys[h.iterators[s].pos]))
+//@   invariant[C05,T] bestIterIdx >= 0 ==> (forall s int :: 0 <= s && s < idx && iterator.IterValid(h.iterators[s]) && s >= bestIterIdx ==> !blt(h.iterators[s].keys[h.iterators[s].pos], bstr(bestKey)))
 //@ loop (*HierarchicalIterator).Seek#3
 //@   invariant[C05] SrcOK(h) && !h.valid && 0 <= i && i <= bestIterIdx && bestIterIdx < len(h.iterators)
 //@   invariant[C05] forall s int :: 0 <= s && s < len(h.iterators) && iterator.IterValid(h.iterators[s]) ==> !blt(h.iterators[s].keys[h.iterators[s].pos], bstr(target))
-//@   invariant[C05] iterator.IterValid(h.iterators[bestIterIdx]) && bstr(bestKey) == h.iterators[bestIterIdx].keys[h.iterators[bestIterIdx].pos] && bstr(bestValue) == h.iterators[bestIterIdx].vals[h.iterators[bestIterIdx].pos] && (bestValue == nil) == h.iterators[bestIterIdx].valnil[h.iterators[bestIterIdx].pos]
-//@   invariant[C05] forall s int :: 0 <= s && s < len(h.iterators) && iterator.IterValid(h.iterators[s]) ==> (s < bestIterIdx ==> blt(bstr(bestKey), h.iterators[s].keys[h.iterators[s].pos])) && (s >= bestIterIdx ==> !blt(h.iterators[s].keys[h.iterators[s].pos], bstr(bestKey)))
+//@   invariant[C05,T] iterator.IterValid(h.iterators[bestIterIdx]) && bestKey != nil && bstr(bestKey) == h.iterators[bestIterIdx].keys[h.iterators[bestIterIdx].pos] && bstr(bestValue) == h.iterators[bestIterIdx].vals[h.iterators[bestIterIdx].pos] && (bestValue == nil) == h.iterators[bestIterIdx].valnil[h.iterators[bestIterIdx].pos]
+//@   invariant[C05,T] forall s int :: 0 <= s && s < len(h.iterators) && iterator.IterValid(h.iterators[s]) && s < bestIterIdx ==> blt(bstr(bestKey), h.iterators[s].keys[h.iterators[s].pos])
+//@   invariant[C05,T] forall s int :: 0 <= s && s < len(h.iterators) && iterator.IterValid(h.iterators[s]) && s >= bestIterIdx ==> !blt(h.iterators[s].keys[h.iterators[s].pos], bstr(bestKey))
+
+// findNextUniqueKey(prev): every source moves forward only, skipping only keys <= prev; afterwards every valid
+// source is on a key > prev (duplicates of prev are skipped in all sources), and the merge is on the minimum of
+// those keys, taken from the newest source holding it; invalid iff no source has a key > prev.
+//@ func (*HierarchicalIterator).findNextUniqueKey
+//@   requires SrcDistinct(h)
+//@   modifies h.key, h.value, h.valid, h.src, all(iterator.Iterator.pos)
+//@   ensures[C05] result == h.valid
+//@   ensures[C05,T] h.valid ==> MergedAt(h)
+//@   ensures[C05] !h.valid ==> (forall s int :: 0 <= s && s < len(h.iterators) ==> !iterator.IterValid(h.iterators[s]))
+//@   ensures[C05] forall s int :: 0 <= s && s < len(h.iterators) ==> h.iterators[s].pos >= old(h.iterators[s].pos)
+//@   ensures[C05] prevKey != nil ==> (forall s int :: 0 <= s && s < len(h.iterators) && iterator.IterValid(h.iterators[s]) ==> blt(bstr(prevKey), h.iterators[s].keys[h.iterators[s].pos]))
+//@   ensures[C05] forall s int, i int :: 0 <= s && s < len(h.iterators) && old(h.iterators[s].pos) <= i && i < h.iterators[s].pos && 0 <= i ==> prevKey != nil && !blt(bstr(prevKey), h.iterators[s].keys[i])
+//@   ensures[C05,T] h.valid && prevKey != nil ==> blt(bstr(prevKey), bstr(h.key))
+//@   ghost exit: h.src = bestIterIdx
+//@ loop (*HierarchicalIterator).findNextUniqueKey#1
+//@   invariant[C05] SrcDistinct(h) && !h.valid && 0 - 1 <= bestIterIdx && bestIterIdx < idx
+//@   invariant[C05] forall s int :: 0 <= s && s < len(h.iterators) ==> h.iterators[s].pos >= old(h.iterators[s].pos) && (s >= idx ==> h.iterators[s].pos == old(h.iterators[s].pos))
+//@   invariant[C05] forall s int, i int :: 0 <= s && s < len(h.iterators) && old(h.iterators[s].pos) <= i && i < h.iterators[s].pos && 0 <= i ==> prevKey != nil && !blt(bstr(prevKey), h.iterators[s].keys[i])
+//@   invariant[C05] prevKey != nil ==> (forall s int :: 0 <= s && s < idx && iterator.IterValid(h.iterators[s]) ==> blt(bstr(prevKey), h.iterators[s].keys[h.iterators[s].pos]))
+//@   invariant[C05] bestIterIdx == 0 - 1 ==> (forall s int :: 0 <= s && s < idx ==> !iterator.IterValid(h.iterators[s]))
+//@   invariant[C05,T] bestIterIdx >= 0 ==> iterator.IterValid(h.iterators[bestIterIdx]) && bestKey != nil && bstr(bestKey) == h.iterators[bestIterIdx].keys[h.iterators[bestIterIdx].pos] && bstr(bestValue) == h.iterators[bestIterIdx].vals[h.iterators[bestIterIdx].pos] && (bestValue == nil) == h.iterators[bestIterIdx].valnil[h.iterators[bestIterIdx].pos]
+//@   invariant[C05,T] bestIterIdx >= 0 ==> (forall s int :: 0 <= s && s < idx && iterator.IterValid(h.iterators[s]) && s < bestIterIdx ==> blt(bstr(bestKey), h.iterators[s].keys[h.iterators[s].pos]))
+//@   invariant[C05,T] bestIterIdx >= 0 ==> (forall s int :: 0 <= s && s < idx && iterator.IterValid(h.iterators[s]) && s >= bestIterIdx ==> !blt(h.iterators[s].keys[h.iterators[s].pos], bstr(bestKey)))
+//@ loop (*HierarchicalIterator).findNextUniqueKey#2
+//@   invariant[C05] SrcDistinct(h) && !h.valid && 0 - 1 <= bestIterIdx && bestIterIdx < i && 0 <= i && i < len(h.iterators) && iter == h.iterators[i] && prevKey != nil
+//@   invariant[C05] forall s int :: 0 <= s && s < len(h.iterators) && s != i ==> dyn(h.iterators[s]) != dyn(iter)
+//@   invariant[C05] forall s int :: 0 <= s && s < len(h.iterators) ==> h.iterators[s].pos >= old(h.iterators[s].pos) && (s > i ==> h.iterators[s].pos == old(h.iterators[s].pos))
+//@   invariant[C05] forall s int, k int :: 0 <= s && s < len(h.iterators) && old(h.iterators[s].pos) <= k && k < h.iterators[s].pos && 0 <= k ==> !blt(bstr(prevKey), h.iterators[s].keys[k])
+//@   invariant[C05] forall s int :: 0 <= s && s < i && iterator.IterValid(h.iterators[s]) ==> blt(bstr(prevKey), h.iterators[s].keys[h.iterators[s].pos])
+//@   invariant[C05] bestIterIdx == 0 - 1 ==> (forall s int :: 0 <= s && s < i ==> !iterator.IterValid(h.iterators[s]))
+//@   invariant[C05,T] bestIterIdx >= 0 ==> iterator.IterValid(h.iterators[bestIterIdx]) && bestKey != nil && bstr(bestKey) == h.iterators[bestIterIdx].keys[h.iterators[bestIterIdx].pos] && bstr(bestValue) == h.iterators[bestIterIdx].vals[h.iterators[bestIterIdx].pos] && (bestValue == nil) == h.iterators[bestIterIdx].valnil[h.iterators[bestIterIdx].pos]
+//@   invariant[C05,T] bestIterIdx >= 0 ==> (forall s int :: 0 <= s && s < i && iterator.IterValid(h.iterators[s]) && s < bestIterIdx ==> blt(bstr(bestKey), h.iterators[s].keys[h.iterators[s].pos]))
+//@   invariant[C05,T] bestIterIdx >= 0 ==> (forall s int :: 0 <= s && s < i && iterator.IterValid(h.iterators[s]) && s >= bestIterIdx ==> !blt(h.iterators[s].keys[h.iterators[s].pos], bstr(bestKey)))
+//@ loop (*HierarchicalIterator).findNextUniqueKey#3
+//@   invariant[C05] SrcDistinct(h) && !h.valid && 0 <= i && i <= bestIterIdx && bestIterIdx < len(h.iterators)
+//@   invariant[C05,T] iterator.IterValid(h.iterators[bestIterIdx]) && bestKey != nil && bstr(bestKey) == h.iterators[bestIterIdx].keys[h.iterators[bestIterIdx].pos] && bstr(bestValue) == h.iterators[bestIterIdx].vals[h.iterators[bestIterIdx].pos] && (bestValue == nil) == h.iterators[bestIterIdx].valnil[h.iterators[bestIterIdx].pos]
+//@   invariant[C05,T] forall s int :: 0 <= s && s < len(h.iterators) && iterator.IterValid(h.iterators[s]) && s < bestIterIdx ==> blt(bstr(bestKey), h.iterators[s].keys[h.iterators[s].pos])
+//@   invariant[C05,T] forall s int :: 0 <= s && s < len(h.iterators) && iterator.IterValid(h.iterators[s]) && s >= bestIterIdx ==> !blt(h.iterators[s].keys[h.iterators[s].pos], bstr(bestKey))
+
+// Next: from a valid position the merge moves to the smallest key strictly greater than the current one
+// (strictly ascending output, duplicates in older sources skipped); from an invalid position it stays invalid.
+//@ func (*HierarchicalIterator).Next
+//@   requires SrcDistinct(h) && lockstate(h.mu) == 0 && (h.valid ==> h.key != nil)
+//@   ensures[C05] !old(h.valid) ==> !result && !h.valid
+//@   ensures[C05] result == h.valid
+//@   ensures[C05,T] old(h.valid) && h.valid ==> MergedAt(h)
+//@   ensures[C05,T] old(h.valid) && h.valid ==> 0 <= h.src && h.src < len(h.iterators) && iterator.IterValid(h.iterators[h.src]) && bstr(h.key) == h.iterators[h.src].keys[h.iterators[h.src].pos]
+//@   ensures[C05,T] old(h.valid) && h.valid ==> blt(old(bstr(h.key)), bstr(h.key))
+//@   ensures[C05] old(h.valid) ==> (forall s int :: 0 <= s && s < len(h.iterators) && iterator.IterValid(h.iterators[s]) ==> blt(old(bstr(h.key)), h.iterators[s].keys[h.iterators[s].pos]))
+//@   ensures[C05] old(h.valid) && !h.valid ==> (forall s int :: 0 <= s && s < len(h.iterators) ==> !iterator.IterValid(h.iterators[s]))
+//@   ensures[C05] forall s int :: 0 <= s && s < len(h.iterators) ==> h.iterators[s].pos >= old(h.iterators[s].pos)
+
+// SeekToFirst: every source at its first entry; the merge on the overall minimum.
+//@ func (*HierarchicalIterator).SeekToFirst
+//@   requires SrcDistinct(h) && lockstate(h.mu) == 0
+//@   ensures[C05] forall s int :: 0 <= s && s < len(h.iterators) ==> h.iterators[s].pos == 0
+//@   ensures[C05,T] h.valid ==> MergedAt(h)
+//@   ensures[C05] !h.valid ==> (forall s int :: 0 <= s && s < len(h.iterators) ==> !iterator.IterValid(h.iterators[s]))
+//@ loop (*HierarchicalIterator).SeekToFirst#1
+//@   invariant[C05] SrcDistinct(h) && (forall s int :: 0 <= s && s < idx ==> h.iterators[s].pos == 0)
+
+//@ func (*HierarchicalIterator).Valid
+//@   requires lockstate(h.mu) == 0
+//@   modifies nothing
+//@   ensures[C05] result == h.valid
+//@ func (*HierarchicalIterator).Key
+//@   requires lockstate(h.mu) == 0
+//@   modifies nothing
+//@   ensures[C05] (h.valid ==> result == h.key) && (!h.valid ==> result == nil)
+//@ func (*HierarchicalIterator).Value
+//@   requires lockstate(h.mu) == 0
+//@   modifies nothing
+//@   ensures[C05] (h.valid ==> result == h.value) && (!h.valid ==> result == nil)
+//@ func (*HierarchicalIterator).IsTombstone
+//@   requires lockstate(h.mu) == 0
+//@   modifies nothing
+//@   ensures[C05] result == (h.valid && h.value == nil)
